@@ -5,6 +5,7 @@
 #include "shim.h"
 
 #include <openssl/evp.h>
+#include <sys/mman.h>
 #include <openssl/hmac.h>
 
 using namespace pbt;
@@ -624,6 +625,51 @@ static void run_long1(Outcome &o, int alg, int64_t total, int mode, const std::s
     o.fail(std::string(ALG[alg]) + "-long", std::string(ALG[alg]) + " of " + std::to_string(total) + " bytes in " + std::to_string(updates) +
                                                 " update(s) of " + std::to_string(csz) + " = " + hex(got) + ", OpenSSL EVP says " + hex(want));
 }
+// ONE update call of 2^32 + k bytes (the length itself does not fit 32 bits); the data is an untouched anonymous mapping (all zero, no memory used)
+static Outcome run_giant(int alg, const Case &c) {
+  Outcome o;
+  if (c.empty() || c[0].a.size() < 2) return o;
+  size_t total = ((size_t)1 << 32) + (size_t)std::max<int64_t>(0, std::min<int64_t>(c[0].a[0], 1 << 20));
+  size_t pre = (size_t)std::max<int64_t>(0, std::min<int64_t>(c[0].a[1], 200));  // bytes fed before the giant call (partial block in the buffer)
+  void *mp = mmap(nullptr, total, PROT_READ, MAP_PRIVATE | MAP_ANONYMOUS | MAP_NORESERVE, -1, 0);
+  if (mp == MAP_FAILED) harness_error("mmap of 4 GiB failed");
+  std::string head = prbytes(5, pre);
+  EVP_MD_CTX *e = EVP_MD_CTX_new();
+  if (!e || EVP_DigestInit_ex(e, evp(alg), nullptr) != 1) harness_error("EVP_DigestInit_ex");
+  void *ctx = c01_hash_new(alg);
+  c01_hash_init(alg, ctx);
+  if (pre) {
+    uint8_t *h = exact(head.data(), pre);
+    c01_hash_update(alg, ctx, h, pre);
+    EVP_DigestUpdate(e, h, pre);
+    free(h);
+  }
+  c01_hash_update(alg, ctx, (const uint8_t *)mp, total);
+  EVP_DigestUpdate(e, mp, total);
+  munmap(mp, total);
+  uint8_t *dg = (uint8_t *)malloc(DLEN[alg]);
+  c01_hash_final(alg, ctx, dg);
+  std::string got((char *)dg, DLEN[alg]);
+  free(dg);
+  free(ctx);
+  unsigned char w[EVP_MAX_MD_SIZE];
+  unsigned int wl = 0;
+  EVP_DigestFinal_ex(e, w, &wl);
+  EVP_MD_CTX_free(e);
+  std::string want((char *)w, wl);
+  o.cls(std::string(ALG[alg]) + ":one-update-of->=2^32-bytes");
+  o.nontrivial = true;
+  if (got != want)
+    o.fail(std::string(ALG[alg]) + "-giant", std::string(ALG[alg]) + " of " + std::to_string(pre) + " + " + std::to_string(total) + " bytes (second update is ONE call) = " + hex(got) + ", OpenSSL EVP says " + hex(want));
+  return o;
+}
+static rc::Gen<Case> gen_giant(int) {
+  return rc::gen::noShrink(rc::gen::exec([]() {
+    Case c;
+    c.push_back(Op("giant", {*rc::gen::weightedOneOf<int64_t>({{2, range<int64_t>(0, 70)}, {1, range<int64_t>(71, 1 << 20)}}), *rc::gen::elementOf(std::vector<int64_t>{0, 0, 1, 55, 63, 64, 65})}));
+    return c;
+  }));
+}
 static Outcome run_long(const Case &c) {
   Outcome o;
   if (c.empty() || c[0].a.size() < 4) return o;
@@ -676,5 +722,10 @@ int main(int argc, char **argv) {
                   "quick (and 1/6 of the thorough cases): a single case running SHA-1 and MD5 over 2^29+k (k in 0..200) bytes, chunked and as one update, and SHA-256 as one update. Oracle: "
                   "OpenSSL EVP fed the same chunks. Non-trivial: >= 2 updates or a carry",
                   gen_long, run_long});
+  for (int alg = 0; alg < 3; alg++)
+    subs.push_back({std::string("giant-") + ALG[alg],
+                    "one update call of 2^32 + k bytes (k in 0..2^20) of zeros from an untouched anonymous mapping, after 0..65 ordinary bytes: a length which does not fit 32 bits. "
+                    "Oracle: OpenSSL EVP fed the same two pieces. Every case non-trivial",
+                    gen_giant, [alg](const Case &c) { return run_giant(alg, c); }});
   return pbt_main(argc, argv, subs);
 }
